@@ -186,6 +186,21 @@ impl Iterator for TaikoGradualDifficulty {
 
         self.idx += 1;
 
+        // Once all hits are passed, the drum rolls and swells after the last
+        // hit are passed as well
+        if self.idx == self.total_hits {
+            for curr in self.diff_objects_iter.by_ref() {
+                let borrowed = curr.get();
+                self.skills.rhythm.process(&borrowed, &self.diff_objects);
+                self.skills.reading.process(&borrowed, &self.diff_objects);
+                self.skills.color.process(&borrowed, &self.diff_objects);
+                self.skills.stamina.process(&borrowed, &self.diff_objects);
+                self.skills
+                    .single_color_stamina
+                    .process(&borrowed, &self.diff_objects);
+            }
+        }
+
         let mut attrs = self.attrs.clone();
         let is_relax = self.difficulty.get_mods().rx();
 
